@@ -1,6 +1,6 @@
 (* Main.v — request dispatcher of the extracted model binary: one s-expression request per line,
    one s-expression answer per line. Definitions only. *)
-From FV Require Import Base AddrRange RouteMap Graph Netlist Hw Check Jobs Desc Build Paths Compile Routing Emit Side.
+From FV Require Import Base AddrRange RouteMap Graph Netlist Hw Check Jobs Desc Build Paths Compile Routing Emit Side RefOracle.
 
 Definition sx_expected (x : sx) : res (string * (Z * Z)) :=
   match x with
@@ -108,6 +108,15 @@ Definition dispatch (cmd : string) (args : list sx) : res sx :=
              | Err e => Ok (L [A "err"; A (sanitize e)])
              end
     | _ => Err "side: arity"
+    end
+  else if str_eqb cmd "tree" then
+    (* (tree <description tree>) -> (ok #t/#f ...) | (err): the hypotheses of C09_model_tree (tree certificate first) *)
+    match args with
+    | [x] => match (do d <- parse_desc (yv_of_sx x); tree_conditions sp_reference d) with
+             | Ok bs => Ok (L (A "ok" :: map (fun b : bool => A (if b then "#t" else "#f")) bs))
+             | Err e => Ok (L [A "err"; A (sanitize e)])
+             end
+    | _ => Err "tree: arity"
     end
   else if str_eqb cmd "nl-echo" then
     match args with [x] => do n <- sx_netlist x; Ok (x_netlist n) | _ => Err "nl-echo: arity" end
